@@ -38,7 +38,7 @@ def build(spec):
 def main(tier, seed):
     t0 = time.time()
     specs = enumerate_specs(tier)
-    results = runner.run_pool(__name__, specs, tier, seed, optkw={"ties": True})
+    results = runner.run_pool(__name__, specs, tier, seed, optkw={"ties": True}, chain=4)
     return runner.finish(
         PROP, tier, seed, results, t0,
         bounds={"spatial": "L<=6, H,W<=4", "kernel": "k<=3", "stride": "<=3 (1d) / <=2 (2d)", "padding": "<=2 (1d) / <=1 (2d)",
